@@ -83,12 +83,12 @@ ADD = dict(
     C06=" The real ConditionEstimator driving each real linear-solver wrapper (scipy by contract stub, converged iterations exact, power iteration unwound 1-2): only a number or a LinearSolverError leaves it; every wrapper under every call shape of the LinearSolver interface.",
     C07=" Failures at the starting point as a property of the point (uninterpreted predicates per callback): the dedicated initial-point error is raised iff one of the five callbacks fails there.",
     C08=" A deadline expiring at a clock read inside a step computation yields no accepted step (L2, Exact controller).",
-    C09=" L2 composition of one compute_step with the inner display off/on (DEBUG): same result and same controller memory afterwards.",
+    C09=" L2 composition of one compute_step with the inner display off/on (DEBUG): same result and same controller memory afterwards; a displayed (possibly failing) compute_step followed by an undisplayed one of twin Exact controllers agrees with the never-displayed pair.",
     C11=" Snapshots follow the owner's attribute (a replaced array must keep dtype and values); single working precision over double-precision cached callbacks.",
     C12=" Step-failure results of the controller (same iterate object); observers registered before the first solve, between solves and unregistered, over three solves of one Solver.",
     C13=" Second Jacobian evaluation with a second symbolic active set on the same iterate, cached derivatives re-checked afterwards; default (None) active set; rho = 0 Hessian.",
-    C14=" Newton variants with a caller-chosen symbolic tau and a reference active set; two consecutive steps of one ActiveSet / Full / Simplified method object (active set free to change) against the variant's reference system.",
-    C15=" The oracle step solver may expose the lambda-scaled residual function (as the Symmetric / Asymmetric / Extended solvers do).",
+    C14=" Newton variants with a caller-chosen symbolic tau and a reference active set; two consecutive steps of one ActiveSet / Full / Simplified method object (active set free to change) against the variant's reference system (quick: Standard and Symmetric with ActiveSet and Full Newton, Extended with Full; thorough: every solver x Newton pair).",
+    C15=" The oracle step solver may expose the lambda-scaled residual function (as the Symmetric / Asymmetric / Extended solvers do); ratio controllers also with non-reciprocal growth / reduction factors (lamb_inc=4, lamb_red=1; 1.5, 0.25).",
     C16=" Shapes with two constraint rows (max-norm != 2-norm); the same rules on a second solve of the same Solver object (self-composition); the six policies driven directly over N arbitrary accepted iterates in exact arithmetic (every penalty handed back positive and not below the previous one).",
     C17=" LU requested with symmetric=True; the SuperLU stub's accuracy clause holds under its default partial pivoting only (relaxed pivoting / SymmetricMode: nothing promised).",
     C20=" A KKT matrix that admits no equilibration run through all 100 sweeps (exponents decided by forking): non-convergence must end in the error; KKT and m=0 dispatch; single working precision with float32 stores modelled as an uninterpreted round-to-nearest (R32).",
